@@ -27,7 +27,7 @@ RULE = ("generating parameters drawn from the stated family (base load 5-50, slo
 ASSUMPTIONS = ["normalised RMSE = RMSE(prediction - generating curve) / mean(generating curve) over the days with a prediction (billing: over complete calendar months, the resolution the building is billed at)",
                "the second weather year is a fresh draw with another mean / amplitude / noise, same timezone",
                "billing: the monthly-billed baseline is predicted on daily reporting data (the model is a daily curve)"]
-REQUIRED_REACH = {"fit.accepted": 12, "clause.baseline_nrmse": 12, "clause.second_year_nrmse": 12, "clause.absent_load": 6, "fit.steep_single_corner": 10}
+REQUIRED_REACH = {"fit.accepted": 12, "clause.baseline_nrmse": 12, "clause.second_year_nrmse": 12, "clause.absent_load": 6, "fit.steep_single_corner": 10, "fit.single_regime_default_profile": 40}
 
 VIOL = []
 
@@ -82,6 +82,10 @@ def gen_cases(tier, seed):
     ns = 24 if q else 300
     cases += [dict(kind="fit", profile=["current", "current", "legacy"][i % 3], usage=["heating", "cooling", "both"][(i // 3) % 3], tz=zones[i % len(zones)], steep=True,
                    n=100000 + i, timeout=2400) for i in range(ns)]
+    # single-regime buildings under the default profile: the reduction of the full model to a one-sided one has several
+    # data-dependent branches (zero slope on the idle side, smoothing under / over its 1% cut), each met by a fraction of such buildings
+    nr = 64 if q else 400
+    cases += [dict(kind="fit", profile="current", usage=["heating", "cooling"][i % 2], tz=zones[(i // 2) % len(zones)], n=300000 + i, timeout=2400) for i in range(nr)]
     cases += [dict(kind="fit", profile="current", usage="cooling", tz="America/Chicago", directed=d, n=200000 + d, timeout=2400) for d in ((4,) if q else (4, 0, 1, 2, 3, 5, 6, 7))]
     return cases
 
@@ -228,5 +232,7 @@ def run_case(spec):
         keys.add("%s|%s|%s|%.0f|%.1f|%.1f|%.0f|%.0f" % (prof, kind, tz, p["base"], p["hs"], p["cs"], p["hb"], p["cb"]))
     if spec.get("steep"):
         I.reach("fit.steep_single_corner")
+    if spec["n"] >= 300000:
+        I.reach("fit.single_regime_default_profile")
     hist = {"nrmse_baseline": "%.0e" % max(n1, 1e-9), "nrmse_second_year": "%.0e" % max(n2, 1e-9), "split": m.best_combination, "profile/kind": prof + "/" + kind}
     return dict(viol=[dict(v) for v in VIOL], reach=I.take_reach(), keys=sorted(keys), hist=hist, events=3)
